@@ -86,6 +86,11 @@ def run(an: Analysis, rep):
                         for (o, fld), vals in it.heap.items():
                             if o == a and fld[0] != "<copyof>":
                                 todo.extend(vals)
+                            elif o == a and it.obj_kind(a) not in ("tuple", "frozenset"):
+                                # a shallow copy of a part of the argument: fresh itself, but its elements are the argument's own objects
+                                for s_ in vals:
+                                    if s_[0] == "src" and it._src_maybe_mutable(it.src_ext(s_, ("e",))):
+                                        shared.append(f"a returned {it.obj_kind(a)} is a shallow copy of {fmt_atom(s_)}: the lists / dicts nested in it are the argument's own")
                     elif a[0] == "src" and entry == "to_json" and it._src_maybe_mutable(a):
                         shared.append(f"returns the argument's own mutable object {fmt_atom(a)}")
                     elif a[0] == "der" and classify(it, a)[0] == "argument":
@@ -95,6 +100,7 @@ def run(an: Analysis, rep):
                      "normalize": "code_data::CodeData.normalize", "from_code": "code_data::CodeData.from_code"}[entry]).module.relpath,
                     ("result shares mutable state: " + "; ".join(shared[:3])) if shared
                     else f"{n_obj} abstract objects reachable from the result, all allocated during the call", config=cfg)
+    rep.run(r127, an, rep)
     from .common import SharedRules
     from . import c08
     rep.run(c08.r083, an, SharedRules(rep, "R12.5", "data built from a JSON document / code object keeps no reference to a mutable part of its argument (shared with C08's R08.3): "
@@ -108,3 +114,70 @@ def run(an: Analysis, rep):
         "iteration order of set/frozenset only affects the listing order of frozenset elements (excluded by C15's wording)",
         "a const-key store into a shallow copy shadows the copied source for that key (conditional stores guarded by the key's presence)",
     ]
+
+
+PROCESS_SETTERS = {
+    "sys.setrecursionlimit", "sys.settrace", "sys.setprofile", "sys.setswitchinterval", "sys.setcheckinterval", "sys.set_int_max_str_digits", "sys.setdlopenflags",
+    "os.chdir", "os.umask", "os.putenv", "os.unsetenv", "locale.setlocale", "warnings.simplefilter", "warnings.filterwarnings", "warnings.resetwarnings",
+    "gc.disable", "gc.enable", "gc.set_threshold", "gc.freeze", "random.seed", "decimal.setcontext", "signal.signal", "threading.setprofile", "threading.settrace",
+}
+
+
+def r127(an: Analysis, rep):
+    """A process-wide setting changed inside an API call (recursion limit, warning filters, gc, locale ...) is state that outlives the
+    call unless it is put back on EVERY path, i.e. in a `finally`: otherwise a call that raises leaves later calls a different interpreter."""
+    from rules.common import attr_chain
+    from rules.encode_model import parent_map
+    rep.rule("R12.7", "process-wide settings touched by an API call are restored in a finally", 0)
+    n = 0
+    seen = set()
+    for entry in API:
+        for f in an.closure(entry):
+            if f.qual in seen:
+                continue
+            seen.add(f.qual)
+            pm = parent_map(f.module)
+            for c in ast.walk(f.node):
+                if not isinstance(c, ast.Call):
+                    continue
+                ch = attr_chain(c.func) or ""
+                dotted = None
+                if "." in ch:
+                    base, meth = ch.split(".", 1)
+                    r = an.prog.resolve_global(f.module, base, f)
+                    if r and r[0] == "ext":
+                        dotted = r[1] + "." + meth
+                elif ch:
+                    r = an.prog.resolve_global(f.module, ch, f)
+                    if r and r[0] == "ext":
+                        dotted = r[1]
+                if dotted not in PROCESS_SETTERS:
+                    continue
+                n += 1
+                # inside a finally block (the restoring call), or inside the body of a try whose finally calls the same setter
+                cur, restored = c, False
+                while id(cur) in pm and pm[id(cur)] is not f.node:
+                    par = pm[id(cur)]
+                    if isinstance(par, ast.Try):
+                        if any(cur is s_ for s_ in par.finalbody):
+                            restored = True
+                        elif par.finalbody and any(isinstance(x, ast.Call) and (attr_chain(x.func) or "") == ch for s_ in par.finalbody for x in ast.walk(s_)):
+                            restored = True
+                    cur = par
+                if not restored:
+                    # a set immediately before a try/finally that restores it is the usual idiom
+                    stmt = c
+                    while id(stmt) in pm and not isinstance(stmt, ast.stmt):
+                        stmt = pm[id(stmt)]
+                    par = pm.get(id(stmt))
+                    body = getattr(par, "body", [])
+                    if stmt in body:
+                        nxt = body[body.index(stmt) + 1:body.index(stmt) + 2]
+                        if nxt and isinstance(nxt[0], ast.Try) and nxt[0].finalbody and any(isinstance(x, ast.Call) and (attr_chain(x.func) or "") == ch
+                                                                                           for s_ in nxt[0].finalbody for x in ast.walk(s_)):
+                            restored = True
+                rep.add("R12.7", f"{f.qual}::{norm_src(c)[:50]}", restored, loc(f.module, c),
+                        "restored in a finally" if restored else
+                        f"`{norm_src(c)[:60]}` changes a process-wide setting and nothing puts it back when the code in between raises: after one failing call (e.g. a rejected "
+                        f"document) every later call of the API runs under a different setting and can give a different result for the same argument")
+    rep.add("R12.7", "process-wide setters examined", True, "code_data/", f"{n} call(s) of {len(PROCESS_SETTERS)} known process-wide setters in the API closures", nontrivial=False)
